@@ -660,7 +660,7 @@ func TestC16(t *testing.T) {
 	rec.SetJournalAll(true)
 	rec.Assume("the refresh window (10s, not configurable through proxy.Config) is shortened through the verif hook",
 		"liveness is checked as a bounded eventuality: 400x the configured timers (at most 12s), with a stall watchdog that turns a missed bound on a stalled machine into 'inconclusive'",
-		"reconnect delays from base >= 2^44 ns (where 1ms<<attempts overflows) are outside the generated domain [1ms, 1h]")
+		"reconnect base delays are generated in [1ms, 1h], caps up to 30 days; bases >= 2^44 ns (where 1ms<<attempts overflows on the unchanged tree) are outside the generated domain")
 
 	runProp(t, rec, "backoff", perShard(evid.Pick(20000, 2000000)), func(rt *rapid.T) c16Backoff {
 		var c c16Backoff
@@ -668,7 +668,13 @@ func TestC16(t *testing.T) {
 			e := rapid.Float64Range(0, 1).Draw(rt, label)
 			return int64(float64(time.Millisecond) * pow(3.6e6, e))
 		}
-		switch rapid.IntRange(0, 3).Draw(rt, "class") {
+		switch rapid.IntRange(0, 4).Draw(rt, "class") {
+		case 4: // a cap far above the base (days): the exponential part has a long way to go
+			c.BaseNs = logu("base")
+			c.MaxNs = int64(float64(time.Hour) * pow(720, rapid.Float64Range(0, 1).Draw(rt, "maxhours")))
+			if c.MaxNs < c.BaseNs {
+				c.MaxNs = c.BaseNs
+			}
 		case 0, 1:
 			a, b := logu("a"), logu("b")
 			if a > b {
@@ -687,7 +693,12 @@ func TestC16(t *testing.T) {
 			c.BaseNs, c.MaxNs = a, b
 		}
 		n := rapid.IntRange(1, 200).Draw(rt, "nops")
+		uninterrupted := rapid.IntRange(0, 3).Draw(rt, "uninterrupted") == 0 // a long outage: attempt after attempt, no success in between
 		for i := 0; i < n; i++ {
+			if uninterrupted {
+				c.Ops = append(c.Ops, "next")
+				continue
+			}
 			c.Ops = append(c.Ops, rapid.SampledFrom([]string{"next", "next", "next", "next", "next", "next", "reset", "clone"}).Draw(rt, "op"))
 		}
 		key := ""
